@@ -356,15 +356,18 @@ __strpd_card(struct strpd_s *d, const char *sp, struct dt_spec_s s, char **ep)
 		if (*sp++ != 'Q') {
 			break;
 		}
-	case DT_SPFL_N_QTR:
-		if (d->m == 0) {
-			int q;
-			if ((q = strtoi_lim(sp, &sp, 1, 4)) >= 0) {
+	case DT_SPFL_N_QTR: {
+		int q;
+
+		if ((q = strtoi_lim(sp, &sp, 1, 4)) >= 0) {
+			if (d->m == 0) {
+				/* a month we know already is more precise */
 				d->m = q * 3 - 2;
-				res = 0;
 			}
+			res = 0;
 		}
 		break;
+	}
 
 	case DT_SPFL_LIT_PERCENT:
 		if (*sp++ == '%') {
